@@ -40,12 +40,20 @@ Definition ex_rest_noloop : list label :=
    LIdleEnter; LRead 4; LArrive 4; LRecv 4; LIdleExit; LConsume 4; LEnd].
 Definition ex_trace_noloop : list label := ex_round ++ ex_rest_noloop.
 
+(** the same interleaving with the request context cancelled while the handler is blocked in its
+    receive and two functions are still running (second wave) *)
+Definition ex_rest_cancel : list label :=
+  [LConsume 1; LConsume 2; LConsume 0; LCreate 5; LIdleEnter; LCancel; LFinish 3; LArrive 3; LRecv 3; LRead 4;
+   LArrive 4; LRecv 4; LIdleExit; LConsume 4; LEnd].
+Definition ex_trace_cancel : list label := ex_round ++ ex_rest_cancel.
+
 Definition phase_after (fx : variant) (tr : list label) : option phase :=
   match run fx ex_prog init tr with Some s => Some (st_phase s) | None => None end.
 
 (** the whole interleaving is a run of the model (pinned and repaired) and ends the request *)
 Example ex_runs : phase_after current ex_trace = Some PEnded /\ phase_after pinned ex_trace = Some PEnded /\
-  phase_after (mkVariant true false) ex_trace_noloop = Some PEnded.
+  phase_after (mkVariant true false) ex_trace_noloop = Some PEnded /\
+  phase_after current ex_trace_cancel = Some PEnded /\ phase_after current (LCancel :: ex_trace) = Some PEnded.
 Proof. vm_compute. repeat split; reflexivity. Qed.
 
 (** hypotheses of C15_batch_coalesced: an idle round with a pending batch of two invocations *)
@@ -97,7 +105,7 @@ Proof.
   - intro H. simpl in H. repeat (destruct H as [H|H]; [discriminate|]). exact H.
 Qed.
 
-Example ex_terminates_instance : length ex_trace <= 36 * 6 + 1.
+Example ex_terminates_instance : length ex_trace <= 36 * 6 + 5.
 Proof.
   assert (R : exists s, run current ex_prog init ex_trace = Some s) by (vm_compute; eexists; reflexivity).
   destruct R as [s R]. exact (terminates ex_prog ex_wf ex_bf current ex_trace s R).
